@@ -177,19 +177,75 @@ def l2_campaign(res, pid, ntraces, length, profile, project=None, traces=None, o
                 for desc, rp in oracle(t, si):
                     oracle_fail.append((t, desc, rp))
             impl[t.id], model[t.id] = si, model2.get(t.id)
+    seen_t = set()
     for t, desc, rp in oracle_fail[:3]:
         r = {"kind": "trace", "trace": t.describe(), "failure": desc}
         r.update(rp or {})
+        if t.id not in seen_t and len(seen_t) < 2:
+            seen_t.add(t.id)
+            # shrink the history while the same oracle still objects; the minimal history is the replay
+            sig = lambda x: re.sub(r"\d+", "#", x.split(":")[0])[:40]
+            word = sig(desc)
+            small = shrink_trace(t, lambda tt, si, mo: any(sig(dd) == word for dd, _ in (oracle(tt, si) if si else [])), pid)
+            if small is not None:
+                r["minimal_history"] = small.describe()["events"]
+                r["trace_file"] = small.render()
         res.violation(desc, r, found=True)
     if mism and not oracle_fail:
         t, d = mism[0]
+        small = shrink_trace(t, lambda tt, si, mo: compare_trace(tt, si, mo, project=project) is not None, pid)
+        rp = {"kind": "trace", "trace": t.describe(), "diff": d, "trace_file": (small or t).render()}
+        if small is not None:
+            rp["minimal_history"] = small.describe()["events"]
         res.violation("correspondence model vs implementation differs (%d of %d traces), first at step %d of %s: %s" % (
-            len(mism), len(traces), d["k"], t.id, d["what"]),
-            {"kind": "trace", "trace": t.describe(), "diff": d, "trace_file": t.render()}, found=False)
+            len(mism), len(traces), d["k"], t.id, d["what"]), rp, found=False)
     return {"traces": len(traces), "steps": steps, "mismatches": len(mism),
             "summary": {"traces": len(traces), "steps": steps, "mismatching_traces": len(mism), "suspects_rerun": retried,
                         "verbs": dict(verbs.most_common(40)), "reply_codes": dict(codes.most_common(60))},
             "impl": impl, "model": model, "trace_objs": traces}
+
+
+def shrink_trace(t, still_fails, pid, rounds=14):
+    """delta debugging over the events of a failing history (connection openings are kept): returns a smaller
+    history on which still_fails(trace, impl_steps, model_steps) holds, or None if nothing could be removed"""
+    try:
+        events = list(t.events)
+        best = None
+        n = 2
+        for rd in range(rounds):
+            if len(events) < 3:
+                break
+            size = max(1, len(events) // n)
+            cands = []
+            for start in range(0, len(events), size):
+                keep = [e for k2, e in enumerate(events) if not (start <= k2 < start + size) or e[0] == "O"]
+                if len(keep) < len(events):
+                    tt = Trace("%s-shr%d-%d" % (t.id, rd, start), t.cfg)
+                    tt.events = keep
+                    tt.meta = dict(t.meta, shrunk_from=t.id)
+                    cands.append(tt)
+            if not cands:
+                break
+            impl, model = run_traces(cands, tag=pid + "-shrink")
+            hit = None
+            for tt in cands:
+                try:
+                    if still_fails(tt, impl.get(tt.id), model.get(tt.id)):
+                        hit = tt
+                        break
+                except Exception:
+                    continue
+            if hit is not None:
+                events = list(hit.events)
+                best = hit
+                n = max(n - 1, 2)
+            elif size == 1:
+                break
+            else:
+                n = min(n * 2, len(events))
+        return best
+    except Exception:
+        return None
 
 
 # ====================================================================== dispatch
@@ -508,9 +564,12 @@ class ConnMap:
                 if l.startswith(":" + self.srv + " 001 "):
                     self.nick[c] = l.split(" ")[2]
                 else:
-                    m = re.match(r"^:([^ !]+)!\S* (?i:NICK) :?(\S+)", l)
-                    if m and self.nick.get(c) == m.group(1):
-                        self.nick[c] = m.group(2)
+                    # (a nickname may itself contain '!' and '@': match against the nick the connection is known to hold)
+                    cur = self.nick.get(c)
+                    if cur is not None and l.startswith(":" + cur + "!"):
+                        m = re.match(r"^\S* (?i:NICK) :?(\S+)", l[len(cur) + 2:])
+                        if m:
+                            self.nick[c] = m.group(1)
         for c in step.get("eof") or []:
             self.nick.pop(c, None)
 
